@@ -21,9 +21,10 @@ META = {
                    'line writes the report to Path(out).absolute() of the starting directory and the JSON next to it as stem.json (the '
                    'chdir into the package does not leak), relative and absolute forms name the same files, the default is HDR.out/HDR.json '
                    'in the starting directory, the client looks for the JSON where main wrote it, and command line, client and direct '
-                   'pipeline give the same status/files/report for every absolute output path. PARTIAL for the exit clause: proved for '
-                   'failures that raise; REFUTED (C20_exit_refuted, reproduced: known finding) for failures the simulator signals with a '
-                   'bare sys.exit() - status 0 and no report. The pre-fix JSON derivation (str.replace) is kept as json_path_pinned with '
+                   'pipeline give the same status/files/report for every absolute output path and every outcome of the simulation (success, '
+                   'exception, bare sys.exit()), and any failure gives a non-zero status and no report (command line after fix 3ff4cc0; the '
+                   'pre-fix command line is kept as cli_pinned with C20_exit_pinned_refuted / C20_entry_points_agree_pinned_refuted, witness '
+                   'in corpus/C20). The pre-fix JSON derivation (str.replace) is kept as json_path_pinned with '
                    'its refutation a.out/a.out. Report CONTENT equality between entry points is tied (subprocess CLI vs client vs direct '
                    'vs Monte-Carlo work_package on the same inputs), not proved.'),
     'level_note': ('Trusted: Coq kernel + vm_compute; the Python harness; pathlib/os are modelled (POSIX, no symbolic links, no drive). '
@@ -58,7 +59,7 @@ BASE = 'Reservoir Model, 4\nReservoir Depth, 3\nGradient 1, 50\nPrint Output to 
 SPECIAL = {   # name -> (input text | None for a missing file, sim code 0 ok / 1 exception / 2 bare sys.exit)
     'fails-bad-value': (BASE + 'End-Use Option, 2\nPlant Lifetime, abc\n', 1),
     'fails-in-calculate': (BASE + 'End-Use Option, 2\nPower Plant Type, 8\n', 1),
-    'aborts-sys-exit': ('Reservoir Model, 5\nReservoir Depth, 3\nGradient 1, 50\nPrint Output to Console, 0\n', 2),
+    'aborts-sys-exit': (json.loads(Path(fw.VERIF, 'corpus', 'C20', '03_bare_sys_exit.json').read_text())['text'], 2),
     'missing-input-file': (None, 1),
 }
 
@@ -119,8 +120,8 @@ def part_argv(ctx, n):
         cwd = str(rnd.choice(dirs))
         inp = rand_arg(rnd, str(root))
         out = None if rnd.random() < 0.15 else rand_arg(rnd, str(root / 'w' / 'other'))
-        cases.append((cwd, [inp] + ([out] if out is not None else []), rnd.random() < 0.25))
-    cases.append((str(dirs[0]), ['in.txt', 'a.out/a.out'], False))
+        cases.append((cwd, [inp] + ([out] if out is not None else []), rnd.choice([0, 0, 0, 0, 0, 1, 1, 2])))
+    cases += [(str(dirs[0]), ['in.txt', 'a.out/a.out'], 0), (str(dirs[0]), ['in.txt', 'r.out'], 2), (str(dirs[1]), ['../in.txt'], 2)]
     res = in_child(cli_stub.stub_main_cases, str(fw.SRC), cases)
     terms = []
     for (cwd, args, fail), (seen, code, cwd_seen) in zip(cases, res):
@@ -132,9 +133,12 @@ def part_argv(ctx, n):
         if seen is None or len(seen) != 3 or os.path.normpath(seen[2]) != want or not os.path.isabs(seen[2]) or cwd_seen != cwd:
             ctx.violate('property', f'cli-path:{shape(out)}', '__main__.py hands main() an output path that is not the requested one',
                         inp={'part': 'argv', 'cwd': cwd, 'args': args, 'fail': fail}, expected=want, observed={'argv': seen, 'cwd': cwd_seen})
-        if (code != 0) != fail:
-            ctx.violate('property', 'cli-exit-status:exception', '__main__.py: exit status does not reflect the outcome of main()',
-                        inp={'part': 'argv', 'cwd': cwd, 'args': args, 'fail': fail}, expected='non-zero iff main() raised', observed=code)
+        if (code != 0) != bool(fail):
+            ctx.violate('property', 'cli-exit-status:' + ('bare-sys-exit' if fail == 2 else 'exception'),
+                        '__main__.py: exit status does not reflect the outcome of main()'
+                        + (' (main() ended with a bare sys.exit())' if fail == 2 else ''),
+                        inp={'part': 'argv', 'cwd': cwd, 'args': args, 'fail': fail},
+                        expected='non-zero iff main() raised or called sys.exit()', observed=code)
     failing = fw.kernel_bools(ctx, 'argv', ['Model.CliPaths'], terms, open_scope='string_scope')
     for i in failing[:5]:
         cwd, args, fail = cases[i]
@@ -144,7 +148,8 @@ def part_argv(ctx, n):
 
 # ------------------------------------------------------------------------------------------ (b) json_outputfile statements
 def corpus_outs():
-    return [json.loads(p.read_text())['out'] for p in sorted(Path(fw.VERIF, 'corpus', 'C20').glob('*.json'))]
+    seeds = [json.loads(p.read_text()) for p in sorted(Path(fw.VERIF, 'corpus', 'C20').glob('*.json'))]
+    return [d['out'] for d in seeds if 'out' in d]
 
 
 def part_json(ctx, n):
@@ -400,7 +405,7 @@ def replay(ctx, data):
         f = fw.kernel_bools(ctx, 'replay', ['Model.CliPaths'], [f'argv_check {qconv.coq_bytes(inp["cwd"])} {qconv.coq_bytes(inp["args"][0])} {sopt(out)} {slist(seen or [])}'],
                             open_scope='string_scope')
         print('Coq model agrees:', not f)
-        bad = seen is None or os.path.normpath(seen[2]) != want or (code != 0) != inp['fail']
+        bad = seen is None or os.path.normpath(seen[2]) != want or (code != 0) != bool(inp['fail'])
     elif part == 'json':
         r = in_child(cli_stub.json_expr_cases, str(fw.SRC), [inp['out']])[0]
         c = in_child(cli_stub.client_json_cases, str(fw.SRC), [inp['out']])[0]
